@@ -36,9 +36,9 @@ Theorem js_cells_eq (cs : list component) (F P T D : nat) (jb : jbody) :
     let t := point_offset cs n + l in
     js_cell (js_frame_rep (map jcomp_of_comp cs) jb (Z.of_nat i)) j (c_name c) l 67
       = Some (VF32 (tget 0%N (mkT [F; P; T] (jb_conf jb)) [i; j; t])) /\
-    forall d x, nth_error (c_format c) d = Some x -> x <> 67%N -> d < D -> ~ In x (skipn (S d) (c_format c)) ->
+    forall d x, nth_error (c_format c) d = Some x -> x <> 67%N -> coord_index (c_format c) d < D -> ~ In x (skipn (S d) (c_format c)) ->
       js_cell (js_frame_rep (map jcomp_of_comp cs) jb (Z.of_nat i)) j (c_name c) l x
-      = Some (VF32 (tget 0%N (mkT [F; P; T; D] (jb_data jb)) [i; j; t; d])).
+      = Some (VF32 (tget 0%N (mkT [F; P; T; D] (jb_data jb)) [i; j; t; coord_index (c_format c) d])).
 Proof.
   intros Hplain HP HT HD ET Hld Hlc i j n l c Hi Hj Hn Hl Hlater t.
   assert (Hall : forall c', In c' cs -> comp_no_bom c') by (now apply Forall_forall).
@@ -67,10 +67,11 @@ Proof.
   - intros d x Hd Hx HdD Hxl.
     destruct (HL d (jcomp_of_comp c) x Hj' Hn' Hl' Hlater') as [_ HX]. rewrite Hname, Hfmt in HX.
     rewrite (HX Hd Hx Hxl). rewrite Eplace, HD. f_equal.
-    assert (Eidx : js_data_index (Z.of_nat (ravel [F; P; T] [i; j; t])) (Z.of_nat D) (Z.of_nat d)
-                   = Z.of_nat (ravel [F; P; T; D] [i; j; t; d])).
+    set (k := coord_index (c_format c) d) in *.
+    assert (Eidx : js_data_index (Z.of_nat (ravel [F; P; T] [i; j; t])) (Z.of_nat D) (Z.of_nat k)
+                   = Z.of_nat (ravel [F; P; T; D] [i; j; t; k])).
     { unfold js_data_index. cbn [ravel prod fold_right]. repeat (rewrite Nat2Z.inj_add || rewrite Nat2Z.inj_mul). cbn [Z.of_nat]. ring. }
     rewrite Eidx. rewrite f32_at_nth; [reflexivity|].
-    assert (Hr : ravel [F; P; T; D] [i; j; t; d] < prod [F; P; T; D]) by (apply ravel_lt; repeat constructor; assumption).
+    assert (Hr : ravel [F; P; T; D] [i; j; t; k] < prod [F; P; T; D]) by (apply ravel_lt; repeat constructor; assumption).
     cbn [prod fold_right] in Hr. lia.
 Qed.
